@@ -109,6 +109,35 @@ def sql_rules(ctx, crate, self_ty, clock, tag, rule='C13.R1'):
             if s is None:
                 ctx.ob(rule, '%s|%s|sql-constant' % (tag, m), False, b.loc(bb, t),
                        'the SQL text is not a single string constant; the rule cannot read it (fails closed)')
+    # a write overwrites: what `load` returns afterwards is what THIS call bound, so every column assignment of an UPDATE (and of the
+    # DO UPDATE part of an upsert) takes its value from a placeholder or from the row being inserted, never from an expression over the old row
+    for m, (bodies_, sqls_) in per.items():
+        for i, (s, b, bb, t) in enumerate(sqls_):
+            if s is None:
+                continue
+            q = norm_sql(s)
+            for mm in re.finditer(r'\bSET\b(.*?)(?=\bWHERE\b|\bRETURNING\b|$)', q, flags=re.I | re.S):
+                depth, cur, parts = 0, '', []
+                for ch in mm.group(1):
+                    if ch == '(':
+                        depth += 1
+                    elif ch == ')':
+                        depth -= 1
+                    if ch == ',' and depth == 0:
+                        parts.append(cur); cur = ''
+                    else:
+                        cur += ch
+                parts.append(cur)
+                for a in parts:
+                    if '=' not in a:
+                        continue
+                    col, rhs = a.split('=', 1)
+                    rhs_n = re.sub(r'\s+', '', rhs)
+                    plain = re.match(r'^(\?\d*|\$\d+|:\w+|excluded\.\w+|VALUES\(\w+\)|new\.\w+)(::\w+)?$', rhs_n, re.I) is not None
+                    ctx.ob(rule, '%s|%s|assignment-overwrites|%s' % (tag, m, col.strip().split('.')[-1]), plain, b.loc(bb, t),
+                           '`%s = %s`: the column is set to what this call bound: %s (an expression over the stored row — MAX(deadline, ?), '
+                           'COALESCE(state, ?) — makes the outcome depend on the previous write: a shorter TTL, or a new state, is silently not stored)'
+                           % (col.strip(), rhs.strip()[:40], plain))
     for m in LIVE_METHODS:
         if m not in per:
             continue
